@@ -29,6 +29,7 @@ static void gen(Plan* p, Rng* r, int tier, long idx) {
         plan_add(p, "frm", 8, size_kb, level, wlog, strat, ldm, jump_mb, mode, (int64_t)(1 + rng_chunk(r, 1 << 20, 1 << 17)));
     }
     plan_set(p, "giant_mb", (tier && (idx % 97) == 96) ? 4200 : 0);
+    plan_set(p, "mix_tail", rng_coin(r, 1, 2) ? 1 + (int64_t)(rng_u64(r) >> 3) : 0);
     sim_sched_plan_defaults(p, r, 0);
     plan_set(p, "sched_step_cap", 40000000);
 }
@@ -44,13 +45,19 @@ static size_t do_frame(ZSTD_CCtx* c, const Plan* p, const PlanOp* o, Sess* s, ui
     if (o->a[6] == 0) return ZSTD_compress2(c, dst, cap, s->in, s->in_size);
     { ZSTD_inBuffer in; ZSTD_outBuffer out; size_t chunk = (size_t)o->a[7]; size_t pos = 0; long g = 0; if (chunk < 64) chunk = 64;   /* one output buffer of compressBound size: flushes only with chunks large enough not to exceed it */
       out.dst = dst; out.size = cap; out.pos = 0;
-      for (;;) { size_t n = s->in_size - pos < chunk ? s->in_size - pos : chunk; int last = pos + n == s->in_size;
+      /* the call history must be the same function of INPUT POSITIONS on the long-lived and on the fresh context: with worker threads a
+       * call may consume only part of its input (schedule dependent), so every chunk is presented until consumed, and a flush is issued at
+       * fixed chunk boundaries and driven to completion (otherwise job boundaries, hence bytes, would depend on the schedule) */
+      for (;;) { size_t n = s->in_size - pos < chunk ? s->in_size - pos : chunk; int last = pos + n == s->in_size; long k = g; long spin = 0;
           in.src = s->in + pos; in.size = n; in.pos = 0;
-          r = ZSTD_compressStream2(c, &out, &in, last ? ZSTD_e_end : ((g % 5) == 4 && chunk >= 4096 ? ZSTD_e_flush : ZSTD_e_continue));
-          if (ZSTD_isError(r)) return r;
-          pos += in.pos; g++;
-          if (last && in.pos == n && r == 0) break;
-          if (g > 50000000) return (size_t)-ZSTD_error_GENERIC; }
+          if (!last) {
+              while (in.pos < in.size) { r = ZSTD_compressStream2(c, &out, &in, ZSTD_e_continue); if (ZSTD_isError(r)) return r; if (++spin > 50000000) return (size_t)-ZSTD_error_GENERIC; }
+              if ((k % 5) == 4 && chunk >= 4096) do { r = ZSTD_compressStream2(c, &out, &in, ZSTD_e_flush); if (ZSTD_isError(r)) return r; if (++spin > 50000000) return (size_t)-ZSTD_error_GENERIC; } while (r != 0);
+          } else {
+              do { r = ZSTD_compressStream2(c, &out, &in, ZSTD_e_end); if (ZSTD_isError(r)) return r; if (++spin > 50000000) return (size_t)-ZSTD_error_GENERIC; } while (r != 0 || in.pos < in.size);
+          }
+          pos += n; g++;
+          if (last) break; }
       return out.pos; }
 }
 
@@ -101,9 +108,7 @@ static void exec(const Plan* p) {
             size_t d0 = 0; FwFrame fa; int blk = -1, nb = 0; size_t regen_before = 0; while (d0 < ra && d0 < rb && a[d0] == b[d0]) d0++;
             if (fw_parse(a, ra, 0, &fa) == 0) { int q; nb = fa.nblocks; for (q = 0; q < fa.nblocks; q++) if (fa.blocks[q].off <= d0) blk = q; fw_free(&fa); }
             (void)regen_before;
-            /* KF-6 (known_findings.jsonl): only under the frequent-correction build knob AND multithreading */
-            if (!strcmp(SIM_FLAVOUR, "F") && sess_get_cparam(p, "nbWorkers", 0) >= 1) { sim_note_finding("kf6_freqcorrect_mt"); sim_probe("c15.kf6_frames"); }
-            else sim_violation("worn_context_differs", "frame %d (size %zu, level %d, windowLog %d, jump %lld MiB): long-lived context emits %zu bytes, fresh context %zu, first difference at byte %zu (block %d of %d)", f, n, (int)o->a[1], (int)o->a[2], (long long)o->a[5], ra, rb, d0, blk, nb);
+            sim_violation("worn_context_differs", "frame %d (size %zu, level %d, windowLog %d, jump %lld MiB): long-lived context emits %zu bytes, fresh context %zu, first difference at byte %zu (block %d of %d)", f, n, (int)o->a[1], (int)o->a[2], (long long)o->a[5], ra, rb, d0, blk, nb);
         }
         /* decoder ring: stream-decode through tiny outputs so the decoder's window buffer wraps many times */
         if (n >= (256u << 10) && o->a[2] <= 14) { ZSTD_DCtx* d = ZSTD_createDCtx_advanced(sess_cmem()); DecResult dr; Plan dp; plan_init(&dp, "x", 1); plan_set(&dp, "dfin_in", 3000 + f * 17); plan_set(&dp, "dfin_out", 700 + f * 13);
@@ -112,6 +117,31 @@ static void exec(const Plan* p) {
             dec_result_free(&dr); plan_free(&dp); ZSTD_freeDCtx(d); sim_probe("c15.decoder_ring_streams"); }
         sim_event("frame %d size=%zu -> %zu jump=%lldMiB", f, n, ra, (long long)o->a[5]);
         free(a); free(b); s.dict = NULL; sess_free(&s); f++;
+    }
+    /* ---- entry points mixed on the worn context WITHOUT a reset in between: a finished one-shot frame must not leave anything
+     *      (pledged size, stage, dictionary) that the next streamed frame inherits; each frame equals a fresh context's ---- */
+    if (plan_get(p, "mix_tail", 0)) {
+        Rng r; int k, nk = 2 + (int)(plan_get(p, "mix_tail", 0) % 4); size_t const maxn = 90000; uint8_t* in = (uint8_t*)malloc(maxn); size_t const cap = ZSTD_compressBound(maxn) + 64; uint8_t* a = (uint8_t*)malloc(cap); uint8_t* b = (uint8_t*)malloc(cap);
+        rng_seed(&r, (uint64_t)plan_get(p, "mix_tail", 1), "mix"); gen_input(&r, (int)plan_get(p, "in_kind", 0), in, maxn);
+        ZSTD_CCtx_reset(c, ZSTD_reset_session_and_parameters);
+        for (k = 0; k < nk; k++) {
+            int const how = (int)rng_below(&r, 4); size_t const n = (size_t)rng_below(&r, maxn); size_t const off = (size_t)rng_below(&r, maxn - n + 1); size_t ra = 0, rb = 0; int pass;
+            for (pass = 0; pass < 2; pass++) {
+                ZSTD_CCtx* x = pass == 0 ? c : ZSTD_createCCtx_advanced(sess_cmem()); uint8_t* dst = pass == 0 ? a : b; size_t rr;
+                if (how == 0) rr = ZSTD_compressCCtx(x, dst, cap, in + off, n, 1 + (int)(n % 5));
+                else if (how == 1) rr = ZSTD_compress_usingDict(x, dst, cap, in + off, n, in, 1000, 3);
+                else { ZSTD_inBuffer ib; ZSTD_outBuffer ob; size_t const half = n / 2; ib.src = in + off; ib.size = half; ib.pos = 0; ob.dst = dst; ob.size = cap; ob.pos = 0;
+                    rr = ZSTD_compressStream2(x, &ob, &ib, how == 2 ? ZSTD_e_continue : ZSTD_e_flush);
+                    if (!ZSTD_isError(rr)) { long g = 0; ib.size = n; do { rr = ZSTD_compressStream2(x, &ob, &ib, ZSTD_e_end); } while (!ZSTD_isError(rr) && rr != 0 && ++g < 100000); }
+                    if (!ZSTD_isError(rr)) rr = ob.pos; }
+                if (ZSTD_isError(rr)) sim_violation(pass == 0 ? "worn_context_fails" : "compress_error", "mixed entry points, frame %d (%s, %zu bytes) on the %s context: %s", k, how == 0 ? "compressCCtx" : how == 1 ? "compress_usingDict" : "compressStream2", n, pass == 0 ? "long-lived" : "fresh", ZSTD_getErrorName(rr));
+                if (pass == 0) ra = rr; else { rb = rr; ZSTD_freeCCtx(x); }
+            }
+            sess_check_lib_roundtrip(a, ra, in + off, n, how == 1 ? in : NULL, how == 1 ? 1000 : 0, 1, 0);
+            if (ra != rb || memcmp(a, b, ra)) sim_violation("worn_context_differs", "mixed entry points, frame %d (%s, %zu bytes): long-lived context emits %zu bytes, fresh context %zu", k, how == 0 ? "compressCCtx" : how == 1 ? "compress_usingDict" : "compressStream2", n, ra, rb);
+            sim_probe("c15.mixed_entry_frames");
+        }
+        free(in); free(a); free(b);
     }
     if (corrections0 > 0) sim_probe("c15.runs_with_overflow_correction");
     if (f >= 2) sim_mark_nontrivial();
